@@ -29,6 +29,31 @@ func ruleCommitOrder(c *Ctx) {
 	for _, st := range storesToField(try, ruleList) {
 		c.Check(valueIsCallTo(st.Val, build), rule, "value of m.ruleList in "+fnName(try), "the installed index is the result of buildRuleList for this patch", P.instrPos(st), "")
 	}
+	// …and the other way round: an update that was saved is what is served from then on — the patch is committed
+	// into the served maps and the index built for it is installed before success is reported
+	c.mustFollow(rule, try, "savePatch", instrCallMatcher(save), "patch.commit()", instrCallMatcher(commit), errorExit,
+		"an update written to storage is committed into the served rule and group maps")
+	c.mustFollow(rule, try, "savePatch", instrCallMatcher(save), "m.ruleList = ruleList", func(x ssa.Instruction) bool { return isStoreToField(x, ruleList) }, errorExit,
+		"an update written to storage installs the key-range index that was built for it")
+	// every entry of the patch reaches storage: each iteration of savePatch's loops writes or deletes its entry
+	spF := P.Method(plc, "RuleManager", "savePatch")
+	writes := []Callee{F(P.Method("server/core", "Storage", "SaveRule")), F(P.Method("server/core", "Storage", "DeleteRule")),
+		F(P.Method("server/core", "Storage", "SaveRuleGroup")), F(P.Method("server/core", "Storage", "DeleteRuleGroup"))}
+	nL := 0
+	for _, l := range loopsOf(spF) {
+		nL++
+		c.Check(everyIterationCalls(l, func(x ssa.Instruction) bool { return isCallTo(x, writes...) }), rule, fmt.Sprintf("loop #%d of %s", nL, fnName(spF)),
+			"every rule and group of the patch is written to (or deleted from) storage", P.pos(spF.Pos()), "an iteration can pass without a storage write")
+	}
+	if nL < 2 {
+		c.Undec(rule, "loops of "+fnName(spF), "2 (rules, groups)", "", fmt.Sprint(nL))
+	}
+	// the preparation steps run: deprecated/duplicate entries are normalised before the index is built and no-op
+	// entries dropped before the save
+	adjust := F(P.Method(plc, "ruleConfigPatch", "adjust"))
+	trim := F(P.Method(plc, "ruleConfigPatch", "trim"))
+	c.need(rule, try, "call buildRuleList", instrCallMatcher(build), []Ev{&calledEv{name: "patch.adjust()", match: instrCallMatcher(adjust)}}, all, "the patch is adjusted (group links, defaults) before the index is built from it")
+	c.need(rule, try, "call savePatch", instrCallMatcher(save), []Ev{&calledEv{name: "patch.trim()", match: instrCallMatcher(trim)}}, all, "entries that change nothing are dropped before the save")
 	// savePatch is given the patch's own mutation set
 	// Initialize: index and the initialised flag only after a successful build
 	ini := P.Method(plc, "RuleManager", "Initialize")
